@@ -141,7 +141,7 @@ pub fn replay(case: &Value) -> Result<String, String> {
 pub fn forbid_unsafe() -> Result<String, String> {
     let out = std::process::Command::new("cargo")
         .current_dir("/repo")
-        .env("CARGO_TARGET_DIR", "/verif/harness/target/forbid-unsafe")
+        .env("CARGO_TARGET_DIR", format!("{}/harness/target/forbid-unsafe", crate::ev::verif_dir()))
         .env_remove("RUSTFLAGS")
         .args(["rustc", "--offline", "-p", "fst", "--lib", "--features", "levenshtein", "--", "-F", "unsafe_code"])
         .output()
